@@ -373,6 +373,73 @@ def evalFn (fn k : String) (ps : List Nat) (raw xs : List Nat) : Option String :
     -- the harness prints the element x as the integer 50*x - 3
     let w : List Int := xs.map fun (x : Nat) => Int.ofNat x * 50 - 3
     some (String.ofList (output (fun (x : Int) => (toString x).toList) w))
+  -- user functions that observe / throw at their T-th call (T = 0: never); state = (calls, log)
+  | "loopbrkx", [B, T] =>
+    if !(ro || k == "a" || k == "t" || k == "p") || B ≥ 8 || T > 8 then none else
+    let body := fun (e : Nat) => throwAt T (fun (log : List Nat) => log ++ [e]) (fun log => ((if bit B e then Loop.break_ else Loop.continue_), log))
+    let r := if k == "t" || k == "p" then tupleLoopBreakE xs body 0 (0, []) else loopBreakE xs body (0, [])
+    some (match r.1 with | .ok _ => ds r.2.2 | .error _ => s!"exc|{ds r.2.2}")
+  | "foldx", [B, T] =>
+    if !(ro || k == "a" || k == "t" || k == "p") || B ≥ 8 || T > 8 then none else
+    let r := foldE xs 0 (fun e st => throwAt T (fun (log : List Nat) => log ++ [e]) (fun log => (st * 4 + e + 1, log))) (0, [])
+    some (match r.1 with | .ok st => s!"{st}|{ds r.2.2}" | .error _ => s!"exc|{ds r.2.2}")
+  | "foldbrkx", [B, T] =>
+    if !(ro || k == "a" || k == "t" || k == "p") || B ≥ 8 || T > 8 then none else
+    let r := foldBreakE xs 0 (fun e st => throwAt T (fun (log : List Nat) => log ++ [e])
+      (fun log => (((if bit B e then Loop.break_ else Loop.continue_), st * 4 + e + 1), log))) (0, [])
+    some (match r.1 with | .ok st => s!"{st}|{ds r.2.2}" | .error _ => s!"exc|{ds r.2.2}")
+  | "mapx", [t, T] =>
+    if !ro || t > 3 || T > 8 then none else
+    let r := mapE xs (fun e => throwAt T (fun (log : List Nat) => log ++ [e]) (fun log => ((e + 1) % 3, log))) (0, [])
+    some (match r.1 with | .ok c => s!"{ds (if t == 3 then setOfList c else c)}|{ds r.2.2}" | .error _ => s!"exc|{ds r.2.2}")
+  | "findbyoptx", [G, T] =>
+    if !ro || G ≥ 64 || T > 8 then none else
+    let r := findByOptE xs (fun e => throwAt T (fun (log : List Nat) => log ++ [e]) (fun log => (tblG G e, log))) (0, [])
+    some (match r.1 with
+      | .ok o => s!"{match o with | none => "none" | some v => toString v}|{ds r.2.2}"
+      | .error _ => s!"exc|{ds r.2.2}")
+  | "findifoptx", [P, T] =>
+    if !ro || P ≥ 8 || T > 8 then none else
+    let r := stdFindIfE xs (fun e => throwAt T (fun (log : List Nat) => log ++ [e]) (fun log => (bit P e, log))) (0, [])
+    some (match r.1 with
+      | .ok pos => s!"{optIdx xs (if pos == xs.length then none else some pos)}|{ds r.2.2}"
+      | .error _ => s!"exc|{ds r.2.2}")
+  | "seqiterx", [R, T] =>
+    if !sq || R ≥ 8 || T > 8 then none else
+    -- the action sees the sequence with the current element still in it: size, and "my element is inside" = 1
+    let r := iterateE (fun cont e => throwAt T (fun (log : List (Nat × Nat)) => log ++ [(e, cont.length * 2 + (if cont.contains e then 1 else 0))])
+      (fun log => (bit R e, log))) [] xs (0, [])
+    let logs := if r.2.2.2.isEmpty then "-" else ",".intercalate (r.2.2.2.map fun p => s!"{p.1}:{p.2}")
+    some s!"{match r.1 with | .ok _ => "" | .error _ => "exc|"}{ds r.2.1}|{logs}"
+  | "removeifx", [P, T] =>
+    if !sq || P ≥ 8 || T > 8 then none else
+    -- std::remove_if tests every element exactly once; on an exception only the size is specified
+    let total := xs.length
+    let seen := if total == 0 then 0 else xs.length
+    if T != 0 && T ≤ total then some s!"exc|{xs.length}|{T}|{seen}" else
+    let (r, c) := removeIf xs xs (bit P); some s!"{b01 r}|{ds c}|{total}|{seen}"
+  | "uniqueifx", [R, T] =>
+    if !sq || R ≥ 512 || T > 8 then none else
+    -- std::unique compares every element but the first exactly once with the last kept one
+    let total := xs.length - 1
+    if T != 0 && T ≤ total then some s!"exc|{xs.length}|{T}" else some s!"{ds (uniqueIf xs xs (rel R))}|{total}"
+  | "amapx", [T] =>
+    if k != "a" || T > 8 then none else
+    if xs.length > 4 then some "skip" else
+    let r := arrayInitX (fun i (st : Nat × List Nat) => match xs[i]? with
+      | some e => throwAt T (fun (log : List Nat) => log ++ [e]) (fun log => ((e + 1) % 3, log)) st
+      | none => (.error .oob, st)) xs.length (0, [])
+    some s!"{match r.1 with | .ok c => ds c | .error _ => "exc"}|{ds r.2.2}|dc=0|live=0"
+  | "ainitx", [T] =>
+    if k != "a" || T > 8 then none else
+    if xs.length > 5 then some "skip" else
+    let r := arrayInitX (fun i => throwAt T (fun (log : List Nat) => log ++ [i]) (fun log => ((i * i + 1) % 7, log))) xs.length (0, [])
+    some s!"{match r.1 with | .ok c => ds c | .error _ => "exc"}|{ds r.2.2}|dc=0|live=0"
+  | "gennx", [t, T] =>
+    if k != "v" || t > 2 || T > 8 then none else
+    -- the generator returns (number of this call)^2 mod 3
+    let r2 := generateNE xs.length (fun (st : Nat × Unit) => throwAt T (fun (u : Unit) => u) (fun u => (((st.1 + 1) * (st.1 + 1)) % 3, u)) st) (0, ())
+    some (match r2.1 with | .ok c => s!"{ds c}|{r2.2.1}" | .error _ => s!"exc|{r2.2.1}")
   | _, _ => none
 
 /-- all source tokens of "length" `len` for kind `k`, in the order both sides enumerate them -/
@@ -492,6 +559,27 @@ def evalM (fn : String) (ps : List Nat) (M : Nat) : Option String :=
     | some e =>
       let (r, m', calls) := getOrInsert m e.2 (fun k (calls : List Nat) => ((k + 1) % 3, calls ++ [k])) []
       some s!"{exc (fun r => s!"{r.1},{b01 r.2}") r}|{encodeMap m'}|{ds calls}"
+  | "goicb", [K, T] => if K ≥ 4 || T > 2 then none else
+    -- create records (size of the map, is the key in it) and throws at its T-th call; after an exception one retry
+    let create := fun (mm : Map) (k : Nat) => throwAt T (fun (seen : List (Nat × Nat)) => seen ++ [(mm.length, (mm.map (·.1)).count k)])
+      (fun seen => ((k + 1) % 3, seen))
+    let showR := fun (r : Except Fault (Nat × Bool)) (mm : Map) => match r with
+      | .ok r => s!"{r.1},{b01 r.2}|{encodeMap mm}"
+      | .error _ => s!"exc|{encodeMap mm};"
+    let (r1, m1, s1) := getOrInsertE m K create (0, [])
+    let (out, sF) := match r1 with
+      | .ok _ => (showR r1 m1, s1)
+      | .error _ => let (r2, m2, s2) := getOrInsertE m1 K create s1; (showR r1 m1 ++ showR r2 m2, s2)
+    let seen := if sF.2.isEmpty then "-" else ",".intercalate (sF.2.map fun p => s!"{p.1}.{p.2}")
+    some s!"{out}|{sF.1}|{seen}"
+  | "mapiterx", [R, T] => if R ≥ 8 || T > 4 then none else
+    let r := iterateE (fun (cont : Map) (e : Nat × Nat) => throwAt T
+      (fun (log : List String) => log ++ [s!"{e.2}:{cont.length}.{(cont.map (·.1)).count e.1}"]) (fun log => (bit R e.2, log))) [] m (0, [])
+    some s!"{match r.1 with | .ok _ => "" | .error _ => "exc|"}{encodeMap r.2.1}|{if r.2.2.2.isEmpty then "-" else ",".intercalate r.2.2.2}"
+  | "mapiter2x", [R, T] => if R ≥ 8 || T > 4 then none else
+    let r := iterateE (fun (cont : Map) (e : Nat × Nat) => throwAt T
+      (fun (log : List String) => log ++ [s!"{e.2}:{cont.length}.1"]) (fun log => (bit R e.2, log))) [] m (0, [])
+    some s!"{match r.1 with | .ok _ => "" | .error _ => "exc|"}{encodeMap r.2.1}|{if r.2.2.2.isEmpty then "-" else ",".intercalate r.2.2.2}"
   | "keyset", [] => some (ds (keySet m))
   | "mapvals", [] => some (ds (mapValues m))
   | "mapiter", [R] => if R ≥ 64 then none else
@@ -648,6 +736,21 @@ def step (st : St) (toks : List String) : St × String :=
       | .ok (v, impl, _) => ({ st with impl }, s!"{v} {impl.length}|{nl impl}")
       | .error e => (st, e.name)
     | none => (st, "bad-op")
+  | ["imgetx", i, T] =>
+    match i.toNat?, T.toNat? with
+    | some i, some T =>
+      if i > 64 || T > 8 then (st, "bad-op") else
+      -- insert() records the size of the vector it sees; only a call that does not throw draws from the generator
+      let ins := fun (impl : List Nat) => throwAt T (fun (gs : Nat × List Nat) => (gs.1, gs.2 ++ [impl.length]))
+        (fun gs => let r := gen gs.1; (r.1, (r.2, gs.2)))
+      let (r, impl, s') := indexMapGetE st.impl i ins (0, (st.g, []))
+      let seen := if s'.2.2.isEmpty then "-" else natList s'.2.2
+      let st' := { st with impl := impl, g := s'.2.1 }
+      match r with
+      | .ok v => (st', s!"{v} {impl.length}|{nl impl}|{seen}")
+      | .error (.exception _) => (st', s!"exc {impl.length}|{nl impl}|{seen}")
+      | .error e => (st', e.name)
+    | _, _ => (st, "bad-op")
   | ["hgoi", K] =>
     match K.toNat? with
     | some K =>
